@@ -59,9 +59,11 @@ fn claim_case(c: usize, dl: usize, is_new: [bool; 3]) {
 	assert!(packed[packed.len() - 1] as usize == c, "C10.N2 child count byte");
 	let (d, ch) = unpack_node_data(packed.clone()).unwrap();
 	assert!(d.len() == dl && ch.len() == c, "C10.N2 root unpacks to the supplied shape");
-	let j: usize = kani::any();
-	kani::assume(j < dl);
-	assert!(d[j] == data[j], "C10.N2 root data read back");
+	if dl > 0 {
+		let j: usize = kani::any();
+		kani::assume(j < dl);
+		assert!(d[j] == data[j], "C10.N2 root data read back");
+	}
 	// children
 	let mut i = 0;
 	let mut seen_new = 0;
